@@ -2,7 +2,8 @@
 a single-character class C given as an alternation / bracket class of literals and
 \\s \\w \\d, used as   re.split('(C)', s)[-1]   or   re.search('C*$', s).group()   /
 re.findall / re.match are not modelled.  Anything else -> EngineEscape (UNDECIDED).
-Lines are ASCII (stated precondition), so \\s and \\w are their ASCII sets."""
+str patterns are Unicode patterns: \\s and \\w are the ASCII sets plus uninterpreted predicates of the non-ASCII code points
+(pysym/strings.py: is_space_char, is_ident_char)."""
 import re as _re
 
 import z3
@@ -20,9 +21,12 @@ def _atom(p, i):
     if c == '\\':
         d = p[i + 1]
         if d == 's':
-            return (lambda t: z3.Or(*[t == w for w in WS_ASCII])), i + 2
+            from .strings import is_space_char
+            return is_space_char, i + 2
         if d == 'w':
-            return (lambda t: z3.Or(z3.And(t >= 48, t <= 57), z3.And(t >= 65, t <= 90), z3.And(t >= 97, t <= 122), t == 95)), i + 2
+            # str patterns are Unicode patterns: \w is [A-Za-z0-9_] plus the non-ASCII word characters (same predicate as the spec's)
+            from .strings import is_ident_char
+            return is_ident_char, i + 2
         if d == 'd':
             return (lambda t: z3.And(t >= 48, t <= 57)), i + 2
         if d in '.()[]{}|*+?^$\\-':
@@ -108,7 +112,8 @@ class ReStub(object):
 
     def __init__(self):
         core.RUN.trust('re: single-character-class patterns translated from the literal pattern text '
-                       '(literals, classes, \\s \\w \\d, alternation, C*$); ASCII lines')
+                       '(literals, classes, \\s \\w \\d, alternation, C*$); non-ASCII members of \\w / \\s are uninterpreted predicates, '
+                       '\\w assumed to coincide with the characters that may continue a Python identifier')
 
     def split(self, pattern, s, *a, **k):
         if type(pattern) is not str or a or k:
@@ -139,3 +144,20 @@ class ReStub(object):
         core.assume(z3.And(i >= 0, i <= n, z3.Or(i == 0, z3.Not(cls(s.at(i - 1))))))
         core.axiom(z3.ForAll([j], z3.Implies(z3.And(j >= s.lo + i, j < s.hi), cls(s.base.ch(j)))))
         return MatchSuffix(s, i)
+
+    def compile(self, pattern, flags=0):
+        if type(pattern) is not str or flags:
+            raise EngineEscape('re.compile(%r, %r)' % (pattern, flags))
+        return CompiledStub(self, pattern)
+
+
+class CompiledStub(object):
+    """re.compile(p): p.search(s) / p.split(s) are re.search(p, s) / re.split(p, s)"""
+    def __init__(self, stub, pattern):
+        self.stub, self.pattern = stub, pattern
+
+    def search(self, s, *a, **k):
+        return self.stub.search(self.pattern, s, *a, **k)
+
+    def split(self, s, *a, **k):
+        return self.stub.split(self.pattern, s, *a, **k)
